@@ -130,6 +130,20 @@ class Prop(PropBase):
             out["err"] = err_name(e)
             return out
         out["len"] = len(y)
+        if len(str(case)) % 3 == 0:
+            # lazily, on Dask-backed copies (also with the time axis in several chunks), alone and in one graph
+            try:
+                from .. import lazy
+                zd, zd3 = lazy.dask_copy(np, z), lazy.dask_copy(np, z, time_chunks=3)
+                zo = lazy.dask_copy(np, z, data=np.asarray(z.data) * 2 + 1)
+                kw = {"ref_freq": ref} if ref is not None else {}
+                ls = [pb.incoherent_dedispersion(zd, DM, **kw), pb.incoherent_dedispersion(zd3, DM, **kw),
+                      pb.incoherent_dedispersion(zd, self._DM(dmv * 0.5, case), **kw), pb.incoherent_dedispersion(zo, DM, **kw)]
+                ok, alone = lazy.joint_equal(np, [l.data for l in ls])
+                out["lazy_ok"] = bool(ok and np.array_equal(alone[0], np.asarray(y.data)) and np.array_equal(alone[1], np.asarray(y.data))
+                                      and all(type(l.data).__module__.startswith("dask") for l in ls))
+            except Exception as e:  # noqa
+                out["lazy_err"] = err_name(e)
         out["meta_same"] = bool(type(y) is type(z) and y.sample_rate == z.sample_rate and y.sample_shape == z.sample_shape
                                 and np.array_equal(y.channel_freqs.value, z.channel_freqs.value)
                                 and y.freq_align == z.freq_align and y.dtype == z.dtype)
@@ -210,6 +224,9 @@ class Prop(PropBase):
             return None
         if "err" in code:
             return f"raised {code['err']} (a request with no valid sample must give an empty signal)"
+        if code.get("lazy_ok") is False or "lazy_err" in code:
+            return ("incoherent dedispersion of Dask-backed copies (one or several time chunks; alone and evaluated in one graph) "
+                    f"differs from the NumPy-backed result or is not lazy ({code.get('lazy_err', 'values')})")
         if not code["meta_same"]:
             return "type / labels / sample shape / dtype changed"
         ds = [round(float(F(d))) if abs(F(d) - round(F(d))) != F(1, 2) else int(2 * round(F(d) / 2)) for d in code["delays"]]
